@@ -55,6 +55,7 @@ func newDest(b *core.Bound) reflect.Value {
 	if b.Spec.HasInit {
 		p.Interface().(interface{ InitDefault() }).InitDefault()
 	}
+	b.SetExtras(p.Elem())
 	return p
 }
 
